@@ -219,7 +219,7 @@ def importResource (source target : KVs) (key : String) : Out KVs :=
     | some to =>
       match frm with
       | .map f => (importEntries f to).bind fun to' => .ok (insert key (.map to') target)
-      | _ => .panic "importResource:from.(map[string]any)"
+      | _ => .err "notMapping"
 
 def resourceKinds : List String := ["services", "volumes", "networks", "secrets", "configs"]
 
